@@ -20,6 +20,11 @@ prepare_scratch() {
     cp "$VERIF_ROOT/shim/xsync_struct_stub.go.txt" "$scr/src/internal/xsync/verif_struct.go"
     echo "instrument: structural chain views unavailable for this tree, stub installed" >> "$scr/instrument.log"
   fi
+  cp "$VERIF_ROOT/shim/xsync_bits.go.txt" "$scr/src/internal/xsync/verif_bits.go"
+  if ! ( cd "$scr/src" && go build ./internal/xsync ) >/dev/null 2>&1; then
+    cp "$VERIF_ROOT/shim/xsync_bits_stub.go.txt" "$scr/src/internal/xsync/verif_bits.go"
+    echo "instrument: h1/h2 of MapOf not found by name, historical bit split assumed" >> "$scr/instrument.log"
+  fi
   cp "$VERIF_ROOT/shim/cache_export.go.txt" "$scr/src/verif_export.go"
   cp -r "$VERIF_ROOT"/harness/* "$scr/src/zzverif/"
   ( cd "$scr/src" && go mod edit -go=1.21 -require=github.com/anishathalye/porcupine@v1.3.0 ) || return 2
